@@ -1,3 +1,5 @@
+\* Ignored: value fields the reader deliberately does not expose (bootstrapped with the map, reviewed against the
+\* transformers' `ignored` lists)
 Keys == { <<OutMap[i].f, OutMap[i].r, OutMap[i].p>> : i \in 1..Len(OutMap) }
 
 \* no field is mapped twice; no two fields of one record claim the same scalar leaf slot
@@ -6,4 +8,6 @@ ASSUME \A i, j \in 1..Len(OutMap) :
           (i # j /\ OutMap[i].g = OutMap[j].g /\ OutMap[i].n = OutMap[j].n /\ OutMap[i].ix = OutMap[j].ix
            /\ OutMap[i].c = OutMap[j].c /\ OutMap[i].f = OutMap[j].f)
           => OutMap[i].tr \in {"pp_datetime", "att_time"}
+\* a field is either exposed or deliberately not exposed, never both
+ASSUME Keys \cap Ignored = {}
 =============================================================================
